@@ -96,20 +96,12 @@ def run(ctx):
                     nonempty = [v for a, v in p.decisions if a.text == a0]          # `if suffix:` on the very slice passed
                     ok14 = ((bool(lt) and lt[-1]) or (bool(nonempty) and nonempty[-1])) and bool(re.match(r'^text\[.+:\]$', a0))
     if ok14:
-        # the cut is placed by the _is_letter loop, and _is_letter accepts ASCII letters only
-        loops = [n for g_, n in scope_nodes(repo, f_poi) if isinstance(n, ast.While)]
-        ok14 = len(loops) == 1 and re.search(r'_is_letter\(text\[\w+ - 1\]\)', norm(loops[0].test)) is not None and isinstance(loops[0].test, ast.BoolOp) and isinstance(loops[0].test.op, ast.And)
-        f_isl = repo.func('matcher._is_letter')
-        rets = [n for n in f_isl.body_nodes() if isinstance(n, ast.Return)]
-        vdef = {n.targets[0].id: n.value for n in f_isl.body_nodes() if isinstance(n, ast.Assign) and isinstance(n.targets[0], ast.Name)}
+        # the cut is placed before the maximal run of trailing letters, and only ASCII letters count as letters
+        from .c14 import letter_cut
         try:
-            for ch in range(0, 0x250):
-                env = {f_isl.params()[0]: chr(ch)}
-                for k_, v_ in vdef.items():
-                    env[k_] = c14_eval(v_, env)
-                if c14_eval(rets[0].value, env) and not (chr(ch).isascii() and chr(ch).isalpha()):
-                    ok14 = False
-        except Exception:
+            cut = letter_cut(repo)
+            ok14 = cut['maximal'] and all(chr(ch).isascii() and chr(ch).isalpha() for ch in cut['accepted'])
+        except AnalysisError:
             ok14 = False
     cond['c14'] = ok14
     f_so = repo.func('matcher._split_on')
@@ -138,7 +130,9 @@ def run(ctx):
         cond['helptext'] = False
 
     def triage(rs, rule, root):
-        k = (rs.func.qual, rs.exc)
+        from .common import effective_funcs as _eff
+        effs = _eff(repo, rs.func)      # a raise inside a freshly extracted helper belongs to the function it was extracted from
+        k = ((effs[0].qual if len(effs) == 1 else rs.func.qual), rs.exc)
         if k in TRIAGE:
             reason, tag = TRIAGE[k]
             if tag is None or cond.get(tag):
